@@ -389,6 +389,9 @@ async def tee_peer(
                         # item already.
                         for peer_buffer in peers:
                             peer_buffer.append(item)
+                        # do not keep the item or a peer's buffer alive: the peer
+                        # may be closed and removed before we fetch again
+                        del peer_buffer, item
             yield buffer.popleft()
     finally:
         # this peer is done – remove its buffer
